@@ -3065,11 +3065,24 @@ class Choice(Set):
 
     def __eq__(self, other):
         if self._componentValues:
+            if isinstance(other, Choice):
+                # two CHOICE values are equal when the same alternative
+                # holds equal values; the chosen component of one is not
+                # to be compared with the other CHOICE object as a whole
+                if (not other._componentValues or
+                        self.getName() != other.getName()):
+                    return False
+
+                other = other.getComponent()
+
             return self._componentValues[self._currentIdx] == other
         return NotImplemented
 
     def __ne__(self, other):
         if self._componentValues:
+            if isinstance(other, Choice):
+                return not self == other
+
             return self._componentValues[self._currentIdx] != other
         return NotImplemented
 
